@@ -59,7 +59,9 @@ def handle (s : State) (line : String) : State × String :=
     | some l, some stop =>
       -- the reply is sent after the lock is released, i.e. after the pre-emption point
       let s0 := steal s l
-      if kk = "@1" then
+      -- `@0`: the main thread is released while the receiver holds the lock; it can only wait for the lock, so the outcome
+      -- is that of a release right after the critical section
+      if kk = "@1" || kk = "@0" then
         let reply := s0.sent.drop s.sent.length
         let s1 := settle { s0 with sent := s.sent }
         let s2 := match finish s1 stop with | some x => settle x | none => s1
